@@ -314,6 +314,23 @@ def r4_apply_enforces(ctx):
     ctx.check(any(a.pol and a.text == f"{pid} in available()" for a in conds),
               call, "step runs only if available",
               "apply() runs identifiers that are not available steps")
+    # every entry of the list is either run or rejected: none is skipped
+    def own_(node):
+        for ch in ast.iter_child_nodes(node):
+            if isinstance(ch, (ast.For, ast.While, ast.FunctionDef,
+                               ast.Lambda)):
+                continue
+            yield ch
+            yield from own_(ch)
+    skips = [x for st_ in lp.body for x in [st_] + list(own_(st_))
+             if isinstance(x, (ast.Continue, ast.Break))]
+    for sk in skips:
+        cs = [repr(a) for a in conditions_at(sk, stop=lp)]
+        ctx.fail(sk, f"apply: entry skipped when {' and '.join(cs)[:60]}",
+                 f"apply() skips list entries ({' and '.join(cs)[:80]}) "
+                 "instead of running or rejecting them: an identifier "
+                 "that is not an available step (e.g. '' or None) is "
+                 "accepted silently")
     # unknown identifiers raise KeyError
     rk = [n for n in cfg.nodes if n.kind == "stmt"
           and isinstance(n.ast, ast.Raise) and "KeyError" in norm(n.ast)]
@@ -405,6 +422,35 @@ def r5_check_order(ctx):
                         return True
             return False
         cmp_ok = any((f"> {cix}" in t) and from_index(t) for t in txt)
+        # "some precursor comes later", not "all of them"
+        quant = None
+        for a in conds:
+            if not a.pol or f"> {cix}" not in R.text(a.node):
+                continue
+            nd = R.resolve(a.node)
+            if isinstance(nd, ast.Call) and (call_name(nd) or "") in (
+                    "any", "np.any", "numpy.any"):
+                quant = "some"
+            elif isinstance(nd, ast.Call) and (call_name(nd) or "") in (
+                    "all", "np.all", "numpy.all"):
+                quant = "all"
+            elif isinstance(nd, ast.Compare) and isinstance(
+                    nd.left, ast.Call):
+                cnm = (call_name(nd.left) or "").split(".")[-1]
+                if cnm in ("max", "amax", "nanmax"):
+                    quant = "some"
+                elif cnm in ("min", "amin", "nanmin"):
+                    quant = "all"
+        if cmp_ok and quant is None:
+            raise Undecided(f"check_order: cannot tell whether the {kind} "
+                            f"test asks for some or for all precursors: {txt}")
+        if quant == "all":
+            ctx.fail(r, f"{kind}: some precursor behind the step",
+                     f"check_order's {kind} test raises only when *all* "
+                     f"present precursors come after the step ({txt}): a "
+                     "list in which one precursor precedes the step and "
+                     "another follows it is accepted although it is out of "
+                     "order")
         ctx.check(cmp_ok, r, f"{kind}: raise when a precursor's index > "
                   f"{cix}",
                   f"check_order's {kind} test is not 'position of the "
